@@ -97,9 +97,14 @@ def run(tier, mode):
                 else:
                     segs = [ppd[(tms[j - 1].end() if j else 0):m.end()] for j, m in enumerate(tms)]
                 segs = [_cd(x) for x in segs]
-                if tms and all(_dl(x) in ('TRS_desc', 'S_desc_TR', 'copy_all') for x in segs):
+                # (a Twp/Rge the finder itself sets aside -- `twprge_ignored` -- does not delimit a segment: no claim then)
+                if tms and all(_dl(x) in ('TRS_desc', 'S_desc_TR', 'copy_all') for x in segs) and not any(f.startswith('twprge_ignored') for f in d2.w_flags):
                     dist['fallback_rejected_segments'] = dist.get('fallback_rejected_segments', 0) + 1
-                    if [x.desc for x in d2.tracts] != [_cd(x) for x in segs]:
+                    want = [_cd(x) for x in segs]
+                    got = [x.desc for x in d2.tracts]
+                    # with sec_within a lone tract takes the text outside the segment back in, so it may hold more than its segment, never less
+                    ok = got == want if 'sec_within' not in rc_cfg else (len(got) == len(want) and all(w in g_ for w, g_ in zip(want, got)))
+                    if not ok:
                         fail('fallback_rejected_sections_segmented', {'text': t, 'config': rc_cfg}, [(x.trs, x.desc) for x in d2.tracts][:3], [('*', x) for x in segs][:3])
                     else:
                         nontriv.add(('rejected_seg', t))
